@@ -165,7 +165,7 @@ class SGR(object):
         return ok
 
 
-def decode(data, keep_raw=False):
+def decode(data, keep_raw=False, merge=True):
     """data: bytes.  Returns list of Row.  Rows are split at LF.  A final row without LF is
     returned too (flag .raw lacks trailing newline)."""
     if isinstance(data, bytes):
@@ -288,7 +288,7 @@ def decode(data, keep_raw=False):
             i += 1
             continue
         w = char_width(ch)
-        if w == 0 and prev_cell is not None and ch not in '\t' and ord(ch) >= 0x300:
+        if merge and w == 0 and prev_cell is not None and ch not in '\t' and ord(ch) >= 0x300:
             prev_cell.ch += ch
             if link is not None:
                 link_text.append(ch)
